@@ -293,6 +293,50 @@ func runC01(r *Report) {
 
 	// ---- R-C01-2 writer side ------------------------------------------------
 	var writes []ssa.CallInstruction // writes to ps.writer in order of appearance
+	wbuf := map[ssa.CallInstruction]ssa.Value{}
+	// a write may go through a helper of the processor that hands one of its []byte parameters to
+	// ps.writer.Write (or to the rate-limited writer) and nothing else to the wire
+	wrapperBuf := func(ci ssa.CallInstruction) ssa.Value {
+		h := ci.Common().StaticCallee()
+		if h == nil || h.Pkg != writePacket.Pkg || len(h.Blocks) == 0 || h == writePacket || h.Name() == "writeRateLimitedData" {
+			return nil
+		}
+		var pw *ssa.Parameter
+		n := 0
+		Instrs(h, func(x ssa.Instruction) {
+			hc, ok := x.(ssa.CallInstruction)
+			if !ok {
+				return
+			}
+			var a ssa.Value
+			if CalleeOf(hc).Name == "Write" && hc.Common().IsInvoke() {
+				if t, f, _, ok := FieldOf(Recv(hc)); ok && t == "StreamProcessor" && f == "writer" {
+					a = hc.Common().Args[0]
+				}
+			} else if CalleeOf(hc).Is("StreamProcessor.writeRateLimitedData") {
+				a = Arg(hc, 0)
+			}
+			if a == nil {
+				return
+			}
+			n++
+			if pp, ok := stripValue(a).(*ssa.Parameter); ok {
+				pw = pp
+			} else {
+				pw = nil
+				n = 99
+			}
+		})
+		if pw == nil || n == 0 || n == 99 {
+			return nil
+		}
+		for i, q := range h.Params {
+			if q == pw && i < len(ci.Common().Args) {
+				return ci.Common().Args[i]
+			}
+		}
+		return nil
+	}
 	Instrs(writePacket, func(in ssa.Instruction) {
 		ci, ok := in.(ssa.CallInstruction)
 		if !ok {
@@ -302,14 +346,20 @@ func runC01(r *Report) {
 		if c.Name == "Write" && ci.Common().IsInvoke() {
 			if t, f, _, ok := FieldOf(Recv(ci)); ok && t == "StreamProcessor" && f == "writer" {
 				writes = append(writes, ci)
+				wbuf[ci] = ci.Common().Args[0]
 			}
+			return
+		}
+		if b := wrapperBuf(ci); b != nil {
+			writes = append(writes, ci)
+			wbuf[ci] = b
 		}
 	})
 	// the 4-byte size write: its buffer is also the target of PutUint32
 	var sizeWrite ssa.CallInstruction
 	var lenArg ssa.Value // X in len(X) written as size
 	for _, w := range writes {
-		buf := w.Common().Args[0]
+		buf := wbuf[w]
 		for _, pc := range Calls(writePacket, false, "PutUint32") {
 			if Arg(pc, 0) == buf {
 				sizeWrite = w
@@ -325,7 +375,7 @@ func runC01(r *Report) {
 		r.Fail("R-C01-2", writePacket.Pos(), "no length-field write of the form PutUint32(buf, uint32(len(body))); writer.Write(buf) found in WritePacket", "WritePacket", "anchor")
 		return
 	}
-	_, sizeW := bufLen(sizeWrite.Common().Args[0])
+	_, sizeW := bufLen(wbuf[sizeWrite])
 	r.Ob("R-C01-2", CallPos(sizeWrite), sizeW == 4, fmt.Sprintf("length field is written as %d bytes (reader reads 4)", sizeW), "WritePacket", "length-width")
 	// body write: a write (direct or rate limited) of the very slice measured
 	isBodyWrite := func(in ssa.Instruction) bool {
@@ -340,6 +390,9 @@ func runC01(r *Report) {
 			}
 		}
 		if c.Is("StreamProcessor.writeRateLimitedData") && Arg(ci, 0) == lenArg {
+			return true
+		}
+		if b, isW := wbuf[ci]; isW && b == lenArg {
 			return true
 		}
 		return false
@@ -359,7 +412,7 @@ func runC01(r *Report) {
 		if w == sizeWrite || isBodyWrite(w.(ssa.Instruction)) {
 			continue
 		}
-		_, k := bufLen(w.Common().Args[0])
+		_, k := bufLen(wbuf[w])
 		r.Ob("R-C01-2", CallPos(w), k == 1 && Before(w.(ssa.Instruction), sizeWrite.(ssa.Instruction)),
 			fmt.Sprintf("extra raw write of %d byte(s): only [type:1][len:4][body] may reach the wire, in this order", k), "WritePacket", "type-byte-write")
 		f := typePredFacts(w.Block())
@@ -399,7 +452,7 @@ func runC01(r *Report) {
 				if w == sizeWrite || isBodyWrite(w.(ssa.Instruction)) {
 					continue
 				}
-				if typeByteValue(w.Common().Args[0]) == tv {
+				if typeByteValue(wbuf[w]) == tv {
 					written = true
 				}
 			}
